@@ -329,6 +329,42 @@ Proof. exists f23_witness. split; [exact f23_repaired|exact f23_asfound]. Qed.
 Print Assumptions c16_embedded_v4_asfound_refuted.
 
 (* ------------------------------------------------------------------ *)
+(* (9) The parts of a remote specification at their point of use: the argument
+       vector ssh.connect hands to Popen (ssh.py:87-92,129-136,191-202).  For
+       every ssh command line `sshl`, every user (non-empty, without ':'), every
+       non-empty password (it may contain ':' and '@'), every host over [\w.-]+,
+       every port 0..65535 and every remote command: ssh is started with
+       -p <that port>, the destination <that user>@<that host> and nothing else
+       in between; the password travels in SSHPASS behind `sshpass -e` and never
+       on the command line. *)
+From SV Require Import Model.SshArgv Proofs.SshArgv_lemmas.
+
+Theorem c16_remote_reaches_ssh : forall sshl u pw h p delim cmd,
+  nonempty u = true -> lacks ":" u = true -> nonempty pw = true ->
+  name4_ok h = true -> digits_ok p = true -> short p = true -> dec_val p <= 65535 ->
+  connect_argv sshl (u ++ ":" :: pw ++ "@" :: h ++ ":" :: p) delim cmd =
+  Ok (Some ([w_sshpass; w_e] ++ sshl ++ [w_p; port_text (dec_val p)] ++ [u ++ "@" :: canon_host h]
+            ++ (if delim then [w_dd] else []) ++ [cmd], Some pw)).
+Proof. exact connect_argv_full. Qed.
+Print Assumptions c16_remote_reaches_ssh.
+
+(* user@host: no -p (the port is left to ssh and ~/.ssh/config), no sshpass *)
+Theorem c16_remote_user_host_reaches_ssh : forall sshl u h delim cmd,
+  nonempty u = true -> lacks ":" u = true -> nonempty h = true -> lacks ":" h = true -> lacks "@" h = true ->
+  connect_argv sshl (u ++ "@" :: h) delim cmd =
+  Ok (Some (sshl ++ [u ++ "@" :: h] ++ (if delim then [w_dd] else []) ++ [cmd], None)).
+Proof. exact connect_argv_user. Qed.
+Print Assumptions c16_remote_user_host_reaches_ssh.
+
+(* host:port without a user: the destination is the bare host *)
+Theorem c16_remote_host_port_reaches_ssh : forall sshl h p delim cmd,
+  name4_ok h = true -> digits_ok p = true -> short p = true -> dec_val p <= 65535 ->
+  connect_argv sshl (h ++ ":" :: p) delim cmd =
+  Ok (Some (sshl ++ [w_p; port_text (dec_val p)] ++ [canon_host h] ++ (if delim then [w_dd] else []) ++ [cmd], None)).
+Proof. exact connect_argv_host_port. Qed.
+Print Assumptions c16_remote_host_port_reaches_ssh.
+
+(* ------------------------------------------------------------------ *)
 (* Non-vacuity: concrete instances of the hypotheses above.            *)
 
 Definition B (s : String.string) : bytes := bytes_of_string s.
@@ -409,4 +445,13 @@ Example c16_ex_argv :
   effective (B "method"%string) (merge_args env cli) = Some (B "tproxy"%string) /\
   effective (B "ssh_cmd"%string) (merge_args env cli) = Some (B "ssh -v"%string) /\
   effective (B "python"%string) (merge_args env cli) = None.
+Proof. vm_compute. repeat split. Qed.
+
+Example c16_ex_connect_argv :
+  connect_argv [B "ssh"%string; B "-v"%string] (B "u:p@ss@Host.Example:2222"%string) true (B "CMD"%string) =
+  Ok (Some ([B "sshpass"%string; B "-e"%string; B "ssh"%string; B "-v"%string; B "-p"%string; B "2222"%string;
+             B "u@host.example"%string; B "--"%string; B "CMD"%string], Some (B "p@ss"%string))) /\
+  connect_argv [B "ssh"%string] (B "host"%string) false (B "CMD"%string) =
+  Ok (Some ([B "ssh"%string; B "host"%string; B "CMD"%string], None)) /\
+  connect_argv [B "ssh"%string] [] false (B "CMD"%string) = Ok None.
 Proof. vm_compute. repeat split. Qed.
